@@ -564,6 +564,11 @@ def directed():
         ("fstring", ["cmp", ["fstr", [["lit", "n="], ["fmt", N("x"), ""], ["fmt", N("s"), "r"]]], [["==", K("zz")]]], {"x": 3, "s": "a"}, {}),
         ("displays", ["cmp", ["tuple", [N("x"), ["list", [N("y")]]]], [["==", ["tuple", [K(1), ["list", [K(2)]]]]]]], {"x": 1, "y": 3}, {}),
         ("dict-display", ["cmp", ["sub", ["dict", [[K("a"), N("x")], [K("b"), N("y")]]], K("b")], [[">", K(5)]]], {"x": 1, "y": 3}, {}),
+        # a dictionary display whose value uses a name its key binds (keys are evaluated before values)
+        ("dict-key-binds", ["cmp", call("len", ["dict", [[["named", "tmp", ["bin", "+", N("x"), K(1)]], N("tmp")]]]), [["==", K(0)]]], {"x": 1}, {}),
+        ("dict-key-binds-comp", ["cmp", call("len", ["dict", [[["named", "tmp", ["bin", "+", N("x"), K(1)]],
+                                                             ["sub", ["comp", "list", N("tmp"), None, [[["v"], False, N("xs"), []]]], K(0)]]]]), [["==", K(0)]]],
+         {"x": 1, "xs": [1]}, {}),
         ("slice", ["cmp", call("sum", ["sub", N("xs"), ["slice", K(1), None]]), [[">", K(100)]]], {"xs": [1, 2, 3]}, {}),
         ("dictcomp", ["cmp", call("len", ["comp", "dict", N("v"), ["bin", "*", N("v"), N("x")], [[["v"], False, N("xs"), []]]]), [[">", K(5)]]],
          {"xs": [1, 2, 2], "x": 2}, {}),
